@@ -496,6 +496,24 @@ def run (cfg : Cfg) : St → List Op → St × List Out
 /-- final state of a history -/
 def runSt (cfg : Cfg) (st : St) (ops : List Op) : St := (run cfg st ops).1
 
+/-! ### a sweep while a request is inside its handler
+
+  The request has run `pre` and holds its session's lock; the sweep runs; the request goes on with
+  `post` and is saved.  `RamSession.clean_up` takes no session lock: it drops the expired entries right
+  away (the request re-creates its own on save).  `FileSession.clean_up` waits at the file of the locked
+  session and handles it after the request; as its test (`expiry < now`) is the one `load` uses and the
+  clock stands still, that gives what a sweep of all files in the middle gives (`C14_boundary_file`). -/
+def sweepDuring (cfg : Cfg) (st : St) (c : Cookie) (pre post : List HOp) : St × Resp × Option Sess :=
+  match initSess cfg st c with
+  | .error e => ((step cfg st .sweep).1, ⟨e, none, false, []⟩, none)
+  | .ok (s0, st0) =>
+    match runHops cfg st0 s0 pre with
+    | .fail e st1 s1 => ((step cfg st1 .sweep).1, ⟨e, some s1.id, s1.cookieExpired, s1.reads⟩, some s1)
+    | .ok st1 s1 =>
+      match runHops cfg (step cfg st1 .sweep).1 s1 post with
+      | .ok st2 s2 => (saveSess cfg st2 s2, ⟨.ok, some s2.id, s2.cookieExpired, s2.reads⟩, some s2)
+      | .fail e st2 s2 => (st2, ⟨e, some s2.id, s2.cookieExpired, s2.reads⟩, some s2)
+
 /-! ### a self-expiring store (MemcachedSession)
 
   `MemcachedSession` keeps `(data, expiration_time)` under the id with the expiration time also
